@@ -610,9 +610,10 @@ def c19(run):
     run.transitions += r.get("generated", 0)
     run.part("MC_Names (order laws on all triples)", MaxLen=maxlen, triples=r.get("distinct", 0))
     # (ii) the code's comparator equals that relation pairwise (G); path laws and random triples are recorded (V)
-    g = vlib.generate("MC_NamesExport", {"MaxLen": maxlen})
+    g = vlib.generate("MC_NamesExport", {"MaxLen": maxlen}, invariants=("Export",), workers=8)
     run.add_model(g)
-    run.sample({"id": g["records"][3]["id"], "first_pairs": g["records"][3]["steps"][0]["pairs"][:4]})
+    rel = next(r for r in g["records"] if r["id"][0] == "rel" and r["id"][1] == 4)
+    run.sample({"id": rel["id"], "first_pairs": rel["steps"][0]["pairs"][:4]})
     res = vlib.run_scenarios(run.harness("scen"), g["file"], "C19", log=True)
     run.traces += res["scenarios"]
     run.steps += res["steps"]
@@ -620,7 +621,7 @@ def c19(run):
     run.part("MC_NamesExport (relation compared pairwise, laws recorded)", scenarios=res["scenarios"], universe=len(g["records"]) - 5)
     validate(run, "Trace_PathLaws", res["log"], "C19.path_laws", what="path-law recording")
     # (iv) powers of two: all 2^32 inputs against the exponent set exported by TLC
-    rr = vlib.generate("MC_NamesExport", {"MaxLen": 0}, tag="P")
+    rr = vlib.generate("MC_NamesExport", {"MaxLen": 0}, invariants=("Export",), tag="P")
     exps = rr["records"][0]["exponents"]
     src, _ = run.impl()
     exe = os.path.join(vlib.scratch(), "pow2_walk")
